@@ -64,6 +64,33 @@ func zzRefRange(r []byte, cl int) (start, end int, ok bool) {
 	return a, b, true
 }
 
+// zzRefSyntaxOK: r has the form of a byte-range-spec ("a-", "a-b" with a <= b, "-n").
+func zzRefSyntaxOK(r []byte) bool {
+	dash := -1
+	for i, c := range r {
+		if c == '-' {
+			dash = i
+			break
+		}
+	}
+	if dash < 0 {
+		return false
+	}
+	if dash == 0 {
+		_, ok := zzRefNum(r[1:])
+		return ok
+	}
+	a, ok := zzRefNum(r[:dash])
+	if !ok {
+		return false
+	}
+	if dash == len(r)-1 {
+		return true
+	}
+	b, ok := zzRefNum(r[dash+1:])
+	return ok && b >= a
+}
+
 // ZZ_C08_H1: ParseByteRange vs the RFC 7233 reference, every range text of <= N bytes (all byte
 // values) against every non-negative 64-bit content length.
 func ZZ_C08_H1() {
@@ -187,7 +214,14 @@ func ZZ_C08_H3() {
 		}
 		if !ok {
 			zz.Cover("unsatisfiable", true)
-			zz.Assert("unsatisfiable-range-gets-416", status == 416)
+			if zzRefSyntaxOK(rng[6:]) {
+				// well-formed but unsatisfiable (first position beyond the end, empty suffix)
+				zz.Assert("unsatisfiable-range-gets-416", status == 416)
+			} else {
+				// malformed: hertz answers 416; ignoring the header (RFC 7233 3.1) would be fine too
+				whole := status == 200 && cl == len(content) && (head || bytes.Equal(body, content))
+				zz.Assert("malformed-range-gets-416-or-is-ignored", status == 416 || whole)
+			}
 			continue
 		}
 		wantStatus := 200
